@@ -45,7 +45,9 @@ impl Property for C09 {
          damaged in turn by an alteration of 1..n bytes confined to that frame's payload or CRC bytes (bit flip + xor, \
          zero-fill, xor run; lengths 1, <=8, <=64, whole payload). Oracle: open returns Ok and every record the undamaged log \
          returned after its final clean restart, and whose append call did not write the damaged frame, is present, byte-identical (additional records or \
-         queues resurrected by a lost truncate / delete are allowed: the property speaks of loss only). evaluations = \
+         queues brought back because the damaged frame WAS a truncate / delete entry are allowed; but a queue that does not \
+         exist at the end of the undamaged history may exist after recovery only if the damaged frame was written by the \
+         delete_queue call for that name: an entry that was not hit keeps its effect). evaluations = \
          damaged images opened. non-trivial = the damaged frame belongs to a control entry (create / position / truncate \
          / delete), or is a First/Middle/Last frame of a multi-frame entry, or touches a block end, or belongs to an \
          entry written before a delete+re-create of its queue; distinct = hash(history, damage)."
@@ -166,6 +168,22 @@ impl Property for C09 {
                             return Err(exec.failure(format!("{what}: record {name:?}@{pos} (appended by call #{owner:?}, not hit) is lost; recovered {}", describe_state(&state)), "unrelated-record-lost", extra));
                         }
                     }
+                }
+            }
+            // "at most the one entry": an entry that was NOT hit keeps its effect. The one effect that shows as something
+            // present rather than missing is a deletion: a queue that does not exist at the end of the undamaged history may
+            // exist after recovery only if the damaged frame was written by a delete_queue call for that very name.
+            for name in state.keys() {
+                if final_state.contains_key(name) {
+                    continue;
+                }
+                let hit_its_deletion = matches!(exec.cops.get(frame_op), Some(COp::Delete { q }) if q.text() == *name);
+                if !hit_its_deletion {
+                    return Err(exec.failure(
+                        format!("{what}: queue {name:?} does not exist at the end of the undamaged history (its DeleteQueue entry was not hit) but exists after recovery: {}", describe_state(&state)),
+                        "deleted-queue-back-although-its-deletion-was-not-hit",
+                        extra,
+                    ));
                 }
             }
             if let Some(frame) = frame {
